@@ -53,8 +53,8 @@ func (b *casReaderBuffer) ReadAt(p []byte, off int64) (int, error) {
 	}
 
 	// Read the part of data at the correct offset.
-	n, err := io.ReadFull(r, p)
-	if err == io.EOF || err == io.ErrUnexpectedEOF {
+	n, err := readFullOrEOF(r, p)
+	if err == io.EOF {
 		return n, io.EOF
 	} else if err != nil {
 		return 0, err
